@@ -50,7 +50,7 @@ pub struct StatusPlan {
 const DAY: u64 = 86_400 * 1_000_000_000;
 
 fn gen_dur(rng: &mut Rng, life: u64, thorough_long: bool) -> u64 {
-    match rng.below(12) {
+    match rng.below(13) {
         0 => 0,
         1 => rng.range(1, 999_999),
         2 => rng.range(1_000_000, 20_000_000),
@@ -63,6 +63,8 @@ fn gen_dur(rng: &mut Rng, life: u64, thorough_long: bool) -> u64 {
         8 => rng.range(3_600, 3 * 3_600) * 1_000_000_000 / if thorough_long { 1 } else { 20 },
         9 => 26 * DAY + rng.range(0, 1_000_000_000),
         10 => 56 * DAY,
+        // a little more than 2^32 ms (49.7 days), where a millisecond count in 32 bits starts over
+        11 => (1u64 << 32) * 1_000_000 * (1 + rng.below(2)) + rng.range(0, 2_000_000_000),
         _ => rng.range(1_000_000, 200_000_000),
     }
 }
